@@ -4,7 +4,13 @@ UNITS = {
   'b64': dict(src=B64, mode='inl', roots=['_ZN13Base64Encoder6EncodeB5cxx11Ev', '_ZN13Base64Decoder6DecodeEv']),
 }
 REAL = dict(real=[B64], shim=['harness/shim_guard.cc'])
-HARNESSES = []
+_HH = '/repo/src/common/http_header.cc'
+OFFSETS = ['harness/offsets_http.cc']
+_A, _AK = '_ZN8Pistache4Http6Header13Authorization', '_ZNK8Pistache4Http6Header13Authorization'
+UNITS['auth'] = dict(src=_HH, mode='sel', roots=[_A + '20setBasicUserPasswordERKNSt7__cxx1112basic_stringIcSt11char_traitsIcESaIcEEESA_', _AK + '12getBasicUserB5cxx11Ev', _AK + '16getBasicPasswordB5cxx11Ev'])
+HARNESSES = [dict(name='basic_credentials', units=['auth'], file='c20_auth.c', defs={'UL': 2, 'PL': 3}, unwind=10, hunwind=40, thorough=dict(defs={'UL': 3, 'PL': 4}, unwind=12), timeout=1200,
+    bound='every user of 0..2 bytes (thorough 3) and every password of 0..3 bytes (thorough 4), all byte values, colons in the password included; encoded text of arbitrary length 1..4 and content',
+    desc='(c) Authorization: setBasicUserPassword -> getBasicUser / getBasicPassword return exactly what was set; value is "Basic " + encoded credentials; a user with a colon is refused')]
 for n in range(0, 10):
     HARNESSES.append(dict(name='roundtrip_n%d' % n, units=['b64'], file='c20_b64.c', defs={'H_ROUNDTRIP': None, 'N': n}, unwind=n + 6,
         tiers=('quick', 'thorough') if n <= 6 else ('thorough',), bound='every byte string of length exactly %d (all 256^%d contents)' % (n, n),
@@ -15,7 +21,8 @@ for n in range(0, 9):
         tiers=('quick', 'thorough') if n <= 5 else ('thorough',), bound='every NUL-terminated text of length exactly %d without embedded NUL' % n,
         desc='Decode(arbitrary text) throws or returns <= 3n/4 bytes, all reads inside the exact-size text block, |text| = %d' % n,
         replay=REAL, tv=dict(real=[B64, 'harness/shim_guard.cc'], n=60)))
-ASSUMPTIONS = [
+ASSUMPTIONS = ['basic_credentials: Base64Encoder::EncodeString / Base64Decoder::Decode are an abstract inverse pair (proved inverse by the codec harnesses of this check); std::string operations are ghost models with an append arena',
+               
   'encoding: clang++-14 -O1 IR of src/common/base64.cc translated to C by engine/ir2c.py (byte-addressed memory); inlined libstdc++ code is real',
   'model: std::string::_M_construct(n,c), reserve(), operator new/delete as exact-size malloc blocks; allocation failure out of scope',
   'model: libstdc++ __throw_* helpers set a pending-exception flag; exception object contents (what()) not modelled',
